@@ -34,6 +34,7 @@ MODULES = {
     'C11': 'harness.c11',
     'C12': 'harness.c12',
     'C13': 'harness.c13',
+    'C14': 'harness.c14',
     'C15': 'harness.c15',
     'C16': 'harness.c16',
     'C17': 'harness.c17',
